@@ -8,7 +8,19 @@ RANGE = {"u8": (0, 255), "i8": (-128, 127), "u16": (0, 65535), "i16": (-32768, 3
 SELS = {1: ["all", "0"], 2: ["all", "1", "10"], 3: ["all", "0", "1", "20"], 4: ["all", "3", "12"]}
 AXES = {2: ["0", "1"], 3: ["0", "2", "02", "21"], 4: ["3", "03", "012"]}
 RAXES = {2: ["0", "1"], 3: ["0", "2", "02"], 4: ["3", "03"]}
-TUS = {"PT_A": ("fh", "hk"), "PT_B": ("cu", "no", "cn"), "PT_C": ("sa", "sr", "st", "sv")}
+# translation units (compiled in parallel): (op kinds, defines); fh / cn / ns are split into gray and multi-channel halves
+GRAY = ("g8", "g8s", "g16", "g16s")
+TUS = {"A_G": (("fh", "hk"), ("PT_A", "HALF_G")), "A_M": (("fh",), ("PT_A", "HALF_M")), "B": (("cu", "no"), ("PT_B",)),
+       "D_G": (("cn",), ("PT_D", "HALF_G")), "D_M": (("cn",), ("PT_D", "HALF_M")), "E_G": (("ns",), ("PT_E", "HALF_G")), "E_M": (("ns",), ("PT_E", "HALF_M")),
+       "C": (("sa", "sr", "st", "sv"), ("PT_C",))}
+
+def tu_of(op):
+    w = op.split(None, 2); k = w[0]
+    if k in ("fh", "hk"): return "A_G" if (k == "hk" or w[1] in GRAY) else "A_M"
+    if k in ("cu", "no"): return "B"
+    if k == "cn": return "D_G" if w[1] in GRAY else "D_M"
+    if k == "ns": return "E_G" if w[1] in GRAY else "E_M"
+    return "C"
 
 def pixels(r, ch, n, style):
     lo, hi = RANGE[ch]
@@ -79,6 +91,15 @@ def gen_ops(ctx):
         for _ in range(200 if th else 60):
             w, h = r.range(0, 6), r.range(0, 6)
             ops.append("cn %s %s %d %s %d %d | %s" % (vt, r.choice(SELS[nc]), pow2_if_signed(r, vt, th), r.choice("qn"), w, h, planes(r, vt, w * h, "small")))
+    # multi-step sequences on fractional bins: normalize -> sum(), normalize twice, normalize -> accumulate -> normalize, quarter weights
+    ops.append("ns g8 all 1 nn 3 1 | 5 5 6 | 1 1 1")
+    ops.append("ns rgb8 20 1 na 2 2 | 1 2 1 2 | 0 0 0 0 | 3 3 4 4 | 1 2 2 2 | 0 0 0 0 | 3 3 4 5")
+    for vt in VT:
+        nc = VT[vt][1]
+        for _ in range(160 if th else 50):
+            w, h = r.range(0, 6), r.range(0, 6)
+            ops.append("ns %s %s %d %s %d %d | %s | %s" % (vt, r.choice(SELS[nc]), pow2_if_signed(r, vt, th), r.choice(["s", "nn", "na", "qs", "qn"]), w, h,
+                                                       planes(r, vt, w * h, "small"), planes(r, vt, w * h, "small")))
     # std::vector two-step sequences: first fill (or a caller-prepared vector), then an ACCUMULATING fill, across channel depths
     ops.append("sv g8 g16 3 3 0 | | 1 2 3 4 5 6 7 8 9 | 1 2 3 400 500 600 7 8 9")
     ops.append("sv - g8 2 2 4 | 3 0 2 1 | 0 0 0 0 | 1 1 3 200")
@@ -100,7 +121,7 @@ def nontrivial(op):
     w = op.split(None, 11)
     if w[0] in ("fh", "hk"): return int(w[8]) * int(w[9]) > 1
     if w[0] in ("cu", "no", "sa", "sr"): return int(w[4]) * int(w[5]) > 1
-    if w[0] == "cn": return int(w[5]) * int(w[6]) > 1
+    if w[0] in ("cn", "ns"): return int(w[5]) * int(w[6]) > 1
     if w[0] == "sv": return int(w[3]) * int(w[4]) > 1
     if w[0] == "st": return int(w[2]) * int(w[3]) > 1
     return False
@@ -117,8 +138,8 @@ ASSUME = [
 
 def compile_all(ctx):
     bins, errs = {}, []
-    with concurrent.futures.ThreadPoolExecutor(max_workers=3) as ex:
-        futs = {d: ex.submit(vlib.compile_harness, ctx, "harness/C19/main.cpp", "C19_" + d, (), (), True, "-O1", (d,)) for d in TUS}
+    with concurrent.futures.ThreadPoolExecutor(max_workers=8) as ex:
+        futs = {d: ex.submit(vlib.compile_harness, ctx, "harness/C19/main.cpp", "C19_" + d, (), (), True, "-O1", TUS[d][1]) for d in TUS}
         for d, f in futs.items():
             b, e = f.result()
             if b is None: errs.append((d, e))
@@ -133,8 +154,8 @@ def run(ctx, ops=None):
         ctx.broken.append(("harness", "compile " + d, e[-1500:])); ctx.log("harness %s does not compile:\n%s" % (d, e[-1500:]))
     ops = ops or gen_ops(ctx)
     samples, kinds = [], {}
-    for d, names in sorted(TUS.items()):
-        g = [o for o in ops if o.split(None, 1)[0] in names]
+    for d in sorted(TUS):
+        g = [o for o in ops if tu_of(o) == d]
         if not g or d not in bins: continue
         impl, model = vlib.correspond(ctx, bins[d], "drv_C19", g, label=d)
         for i in (0, len(g) // 2, len(g) - 1):
